@@ -21,6 +21,7 @@ CONSTANTS MaxN,        \* bound on leaves ever added
           Acts,        \* enabled actions: subset of {"mod","undo","prove","restore","enc"}
           MaxPerm,     \* request orders: all permutations up to this size
           TrackUndone, \* TRUE: which block was undone stays part of the state for one more block (see Undo)
+          MaxReuse,    \* 1: one block per behaviour may append a leaf that carries the hash of a leaf it deletes
           MinN,        \* wide configurations: every state with MinN <= n <= MaxN - MaxAdds and at most
           InitLive     \* InitLive live leaves is an initial state (InitLive >= 99: start from the empty accumulator)
 
@@ -110,7 +111,7 @@ InitHist(x, lv) ==
   (IF x = 0 THEN <<>> ELSE <<ModStepAt(0, {}, <<>>, x, NoEnc)>>)
     \o (IF dead = {} THEN <<>> ELSE <<ModStepAt(x, 0..(x - 1), AscSeq(dead), 0, NoEnc)>>)
 
-Init == /\ stack = <<>> /\ marks = [und |-> 0, rst |-> 0, probe |-> 0, undone |-> <<>>, trail |-> 0]
+Init == /\ stack = <<>> /\ marks = [und |-> 0, rst |-> 0, probe |-> 0, undone |-> <<>>, trail |-> 0, lab |-> <<>>]
         /\ IF InitLive >= 99
            THEN n = 0 /\ live = {} /\ hist = <<>>
            ELSE /\ n \in MinN..(MaxN - MaxAdds)     \* room for one full block
@@ -123,21 +124,34 @@ WideOK == IF InitLive >= 99 THEN TRUE ELSE Cardinality(live) <= InitLive   \* (n
 Push(rec) == IF MaxStack = 0 THEN <<>>
              ELSE SubSeq(<<rec>> \o stack, 1, IF Len(stack) + 1 > MaxStack THEN MaxStack ELSE Len(stack) + 1)
 
+\* Leaf hashes and leaves are not the same thing: a block may spend a leaf and
+\* append a leaf that carries the very same hash (the set of live hashes stays
+\* duplicate free).  The reference semantics is written over slots, with the
+\* hash term L<s> for slot s; marks.lab = <<to, from>> says that the leaf of slot
+\* `to' carries the hash L<from> instead (every emitted hash term is to be read
+\* under that substitution, which the replay harness applies).  At most one
+\* relabelling is in force; undoing the block that introduced it lifts it.
+ReuseOpts(D, k) ==
+  {<<>>} \cup (IF MaxReuse > 0 /\ marks.lab = <<>> /\ k > 0
+               THEN {<<n, d>> : d \in D} ELSE {})
+
 Modify ==
   /\ "mod" \in Acts
   /\ WideOK
   /\ \E D \in SUBSET live, k \in 0..MaxAdds :
        /\ n + k <= MaxN
-       /\ \E e \in Encs(D) :
-            LET step == ModStep(e[1], k, e[2])
+       /\ \E e \in Encs(D), ru \in ReuseOpts(D, k) :
+            LET lab2 == IF ru # <<>> THEN ru ELSE marks.lab
+                step == ModStep(e[1], k, e[2]) @@ [lab |-> lab2]
                 n2   == n + k
                 lv2  == (live \ D) \cup (n..(n + k - 1))
+                m2   == IF marks.undone = <<>> THEN marks
+                        ELSE IF marks.trail = 0 THEN [marks EXCEPT !.trail = 1]
+                        ELSE [marks EXCEPT !.undone = <<>>, !.trail = 0]
             IN  /\ n' = n2
                 /\ live' = lv2
                 /\ stack' = Push([n |-> n, live |-> live])
-                /\ marks' = IF marks.undone = <<>> THEN marks
-                            ELSE IF marks.trail = 0 THEN [marks EXCEPT !.trail = 1]
-                            ELSE [marks EXCEPT !.undone = <<>>, !.trail = 0]
+                /\ marks' = [m2 EXCEPT !.lab = lab2]
                 /\ hist' = Append(hist, step)
                 /\ Emit(step, Obs(n2, lv2))
 
@@ -146,7 +160,8 @@ Undo ==
   /\ stack # <<>>
   /\ marks.und < MaxUnd
   /\ LET prev == Head(stack)
-         step == UndoStep
+         lab2 == IF marks.lab # <<>> THEN (IF prev.n <= marks.lab[1] THEN <<>> ELSE marks.lab) ELSE <<>>
+         step == UndoStep @@ [lab |-> lab2]
      IN  /\ n' = prev.n
          /\ live' = prev.live
          /\ stack' = Tail(stack)
@@ -157,7 +172,8 @@ Undo ==
          \* continued and queried - not only the first witness found.
          /\ marks' = [marks EXCEPT !.und = @ + 1,
                                    !.undone = IF TrackUndone THEN <<prev.live \ live, n - prev.n>> ELSE <<>>,
-                                   !.trail = 0]
+                                   !.trail = 0,
+                                   !.lab = lab2]
          /\ hist' = Append(hist, step)
          /\ Emit(step, Obs(prev.n, prev.live))
 
@@ -171,7 +187,7 @@ Prove ==
   /\ "prove" \in Acts
   /\ \E S \in SUBSET live \ {{}} :
        \E ord \in Orders(S) :
-          LET step == [a |-> "prove", s |-> ord, pf |-> JProof(CanonProof(n, live, ord))]
+          LET step == [a |-> "prove", s |-> ord, pf |-> JProof(CanonProof(n, live, ord)), lab |-> marks.lab]
           IN  /\ IF marks.probe < MaxProbe
                  THEN /\ marks' = [marks EXCEPT !.probe = @ + 1]
                       /\ hist' = Append(hist, step)
@@ -185,7 +201,7 @@ Prove ==
 Restore ==
   /\ "restore" \in Acts
   /\ marks.rst < MaxRst
-  /\ LET step == [a |-> "restore"]
+  /\ LET step == [a |-> "restore", lab |-> marks.lab]
      IN  /\ UNCHANGED <<n, live, stack>>
          /\ marks' = [marks EXCEPT !.rst = @ + 1]
          /\ hist' = Append(hist, step)
@@ -202,6 +218,10 @@ Spec == Init /\ [][Next]_vars
 (***************************************************************************)
 TypeOK == /\ n \in 0..MaxN /\ live \subseteq 0..(n-1)
           /\ Len(stack) <= MaxStack
+
+\* under a relabelling the live leaves still carry pairwise distinct hashes
+LabOK == marks.lab # <<>> =>
+           /\ marks.lab[1] < n /\ marks.lab[2] < marks.lab[1] /\ marks.lab[2] \notin live
 
 \* state constraint for the wide configurations: few live leaves, many slots
 SparseLive == Cardinality(live) <= 4
